@@ -220,3 +220,79 @@ func CheckC18(h *History, blk *BlockRecord) []Violation {
 	}
 	return out
 }
+
+// ---------------------------------------------------------------- C07 (chain-level cross-check)
+
+// CheckC07Chain: across every committed block the redemption value of a vault share does not
+// fall by more than the rounding allowance (one share's worth per bond/unbond tx of the block),
+// and outstanding loans never exceed 90% of the vault value right after a block in which a
+// loan was granted (interest accrued later may push utilisation above the cap; granting may not).
+func CheckC07Chain(h *History, blk *BlockRecord) []Violation {
+	if h.Prev == nil {
+		return nil
+	}
+	var out []Violation
+	sd := sstypes.GetShareDenom()
+	supPrev, supCur := h.Prev.Supply.AmountOf(sd), h.Cur.Supply.AmountOf(sd)
+	if supPrev.IsPositive() && supCur.IsPositive() {
+		rPrev := h.Prev.SSParams.TotalValue.ToLegacyDec().Quo(supPrev.ToLegacyDec())
+		rCur := h.Cur.SSParams.TotalValue.ToLegacyDec().Quo(supCur.ToLegacyDec())
+		n := int64(0)
+		for _, tx := range blk.Txs {
+			if tx.Code == 0 && (strings.HasSuffix(tx.MsgType, "stablestake.MsgBond") || strings.HasSuffix(tx.MsgType, "stablestake.MsgUnbond")) {
+				n++
+			}
+		}
+		if rCur.LT(rPrev) {
+			allow := rPrev.Ceil().TruncateInt().AddRaw(1).MulRaw(n)
+			maxDrop := allow.ToLegacyDec().Quo(sdkmath.MinInt(supPrev, supCur).ToLegacyDec())
+			if rPrev.Sub(rCur).GT(maxDrop) {
+				out = append(out, Violation{Sig: "C07/share-value-fell", Detail: fmt.Sprintf("vault share value fell %s -> %s in one block (%d bond/unbond txs; allowed drop %s) (height %d; %s)", rPrev, rCur, n, maxDrop, h.Cur.Height, blockSummary(blk))})
+			}
+		}
+		if fracLen := len(strings.TrimRight(rCur.String(), "0")); fracLen > 8 {
+			h.Labels["c07-fractional-rate"]++
+		}
+	}
+	// cap: in a block with a successful leveragelp open (the only caller of Borrow), loans <= 0.9 TV + interest accrued in this block
+	opened := false
+	for _, tx := range blk.Txs {
+		if tx.Code == 0 && strings.HasSuffix(tx.MsgType, "leveragelp.MsgOpen") {
+			opened = true
+		}
+	}
+	if opened {
+		tv := h.Cur.SSParams.TotalValue
+		cash := h.Cur.BalOf(modAddr(sstypes.ModuleName), h.Cur.SSParams.DepositDenom)
+		loans := tv.Sub(cash)
+		// interest that materialised inside this block is not "pushed by the borrow": allow it
+		interest := sdkmath.ZeroInt()
+		prevStacked := map[string]sdkmath.Int{}
+		for _, d := range h.Prev.Debts {
+			prevStacked[d.Address] = d.InterestStacked
+		}
+		for _, d := range h.Cur.Debts {
+			if p, ok := prevStacked[d.Address]; ok {
+				interest = interest.Add(d.InterestStacked.Sub(p))
+			} else {
+				interest = interest.Add(d.InterestStacked)
+			}
+		}
+		if loans.Sub(interest).MulRaw(10).GT(tv.MulRaw(9)) {
+			// unbonds later in the same block also raise utilisation; only flag when no unbond happened
+			unbonded := false
+			for _, tx := range blk.Txs {
+				if tx.Code == 0 && (strings.HasSuffix(tx.MsgType, "stablestake.MsgUnbond") || strings.HasSuffix(tx.MsgType, "leveragelp.MsgClose") || strings.HasSuffix(tx.MsgType, "leveragelp.MsgClosePositions")) {
+					unbonded = true
+				}
+			}
+			if !unbonded {
+				out = append(out, Violation{Sig: "C07/cap-exceeded-by-borrow", Detail: fmt.Sprintf("after a block with a granted loan: loans %s (interest accrued in block %s) > 90%% of vault value %s (height %d; %s)", loans, interest, tv, h.Cur.Height, blockSummary(blk))})
+			}
+		}
+		if tv.IsPositive() && loans.MulRaw(10).GTE(tv.MulRaw(8)) {
+			h.Labels["c07-open-at-utilisation>=80%"]++
+		}
+	}
+	return out
+}
